@@ -186,6 +186,8 @@ static bool withinBounds(const Value& c, const Db* db)
   const std::string& op = c.at("op").s();
   if (op == "addColumnsByConstant")
     return db->getColumnNumber() + c.at("nadd").i() <= MAXCOLS && db->getUIDMaxNumber() + c.at("nadd").i() <= MAXUID;
+  if (op == "addSelection" || op == "addColumns")
+    return db->getColumnNumber() + 1 <= MAXCOLS && db->getUIDMaxNumber() + 1 <= MAXUID && db->getSampleNumber() >= 1;
   if (op == "addSamples") return db->getSampleNumber() + c.at("n").i() <= MAXNECH;
   return true;
 }
@@ -228,6 +230,28 @@ static Db* apply(const Value& c, Db* db)
     db->setColumnByUID(col, c.at("uid").i());
   }
   else if (op == "duplicateColumnByUID") db->duplicateColumnByUID(c.at("uid").i(), c.at("uid2").i());
+  else if (op == "copyByUID") db->copyByUID(c.at("uid").i(), c.at("uid2").i());
+  else if (op == "addSelection")
+  {
+    VectorDouble tab(db->getSampleNumber());
+    for (int i = 0; i < (int)tab.size(); i++) tab[i] = (i + 1 + c.at("k").i()) % 2;
+    db->addSelection(tab, unchars(c.at("radix")));
+  }
+  else if (op == "addColumns")
+  {
+    VectorDouble tab(db->getSampleNumber());
+    for (int i = 0; i < (int)tab.size(); i++) tab[i] = c.at("val").i() + i;
+    db->addColumns(tab, unchars(c.at("radix")), eloc(c.at("t").s()), c.at("r").i());
+  }
+  else if (op == "deleteColumnsByUIDRange") db->deleteColumnsByUIDRange(c.at("uid").i(), c.at("n").i());
+  else if (op == "setLocatorsByUIDRange") db->setLocatorsByUID(c.at("n").i(), c.at("uid").i(), eloc(c.at("t").s()), c.at("r").i(), c.at("clean").boolean());
+  else if (op == "setLocators")
+  {
+    VectorString names;
+    for (auto& n : c.at("names").arr) names.push_back(unchars(n));
+    db->setLocators(names, eloc(c.at("t").s()), c.at("r").i(), c.at("clean").boolean());
+  }
+  else if (op == "deleteSamples") db->deleteSamples(c.at("iechs").ints());
   else if (op == "copy")
   {
     // copy construction then assignment back: the copy must be the same table, independent storage
